@@ -592,23 +592,64 @@ end Hawk.Rio
 
 namespace Hawk.Rio
 
-theorem readRec_inv (ρ : Nat → Reply) (s1 : St) (x : Strm) (h1 : Inv s1) : Inv (readRec ρ s1 x).1 := by
+/-- a successful NEXT on a node whose update keeps key and `out.eof` (the read side clears `in.eof`) -/
+theorem Inv.next_ok_keep {s : St} {k : Key} (h : Inv s) (sid j : Nat) (p : Strm → Bool) (f : Strm → Strm)
+    (hk : ∀ x, (f x).key = x.key) (ho : ∀ x, (f x).outEof = x.outEof) :
+    Inv { s.emit (.nx sid k (.accept j)) with chain := modifyFirst p f s.chain } := by
+  have hkeys : keys (modifyFirst p f s.chain) = keys s.chain := keys_modifyFirst p f hk _
+  refine ⟨by simpa [hkeys] using h.nodup, ?_, ?_, ?_, ?_⟩
+  · intro k'; simp [Ev.isOpen, Ev.isFullClose, hkeys, h.balance k']
+  · intro y hy hp
+    simp only [emit_log, eofPending] at hp
+    simp only at hy
+    by_cases hky : k = y.key
+    · simp [hky] at hp
+    · simp only [hky, if_false] at hp
+      rcases mem_modifyFirst hy with hy | ⟨x, hx, -, rfl⟩
+      · exact h.latched y hy hp
+      · rw [hk x] at hp
+        rw [ho x]; exact h.latched x hx hp
+  · intro k' hk'
+    simp only [emit_log, eofPending]
+    split
+    · rfl
+    · exact h.idle k' (by rwa [hkeys] at hk')
+  · simpa [NoWriteAfterEof] using h.nowae
+
+theorem readLoop_inv (ρ : Nat → Reply) (con : Bool) (sid : Nat) (key : Key) (fuel : Nat) (eof : Bool) (s : St)
+    (h : Inv s) : Inv (readLoop ρ con sid key fuel eof s).1 := by
+  induction fuel generalizing eof s with
+  | zero => exact h
+  | succ fuel ih =>
+    cases eof with
+    | true =>
+      unfold readLoop
+      split
+      · exact h
+      · split
+        · exact h.emit_neutral rfl
+        · exact h.emit_neutral_modify (e := .nx sid key .eof) rfl _ _ (fun _ => rfl) (fun _ h => h)
+        · next j _ => exact ih _ _ (h.next_ok_keep sid j _ _ (fun _ => rfl) (fun _ => rfl))
+    | false =>
+      unfold readLoop
+      split
+      · exact h.emit_neutral rfl
+      · exact ih _ _ (h.emit_neutral_modify (e := .rd sid key .eof) rfl _ _ (fun _ => rfl) (fun _ h => h))
+      · exact h.emit_neutral rfl
+
+theorem readRec_inv (ρ : Nat → Reply) (fuel : Nat) (con : Bool) (s1 : St) (x : Strm) (h1 : Inv s1) :
+    Inv (readRec ρ fuel con s1 x).1 := by
   unfold readRec
   split
   · exact h1
-  · split
-    · exact h1
-    · split
-      · exact h1.emit_neutral rfl
-      · exact h1.emit_neutral_modify (e := .rd x.sid x.key .eof) rfl _ _ (fun _ => rfl) (fun _ h => h)
-      · exact h1.emit_neutral rfl
+  · exact readLoop_inv ρ con x.sid x.key fuel x.inEof s1 h1
 
-theorem readio_inv (ρ : Nat → Reply) {s : St} (ik : InKind) (name : String) (h : Inv s) :
-    Inv (readio ρ s ik name).1 := by
+theorem readio_inv (ρ : Nat → Reply) (fuel : Nat) {s : St} (ik : InKind) (name : String) (h : Inv s) :
+    Inv (readio ρ fuel s ik name).1 := by
   unfold readio
   simp only
   split
-  · next x hx => exact readRec_inv ρ s x h
+  · next x hx => exact readRec_inv ρ fuel _ s x h
   · next hnone =>
     have hnew := findKey_none hnone
     split
@@ -654,7 +695,7 @@ theorem step_inv (ρ : Nat → Reply) {s : St} (o : Op) (h : Inv s) : Inv (step 
   | flush ok name => exact flushio_inv ρ ok name h
   | next ok name => exact nextioWrite_inv ρ ok name h
   | close name opt => exact closeio_inv ρ name opt h
-  | read ik name => exact readio_inv ρ ik name h
+  | read ik name fuel => exact readio_inv ρ fuel ik name h
   | flushall => exact flushall_inv ρ h
 
 theorem exec_inv (ρ : Nat → Reply) (ops : List Op) {s : St} (h : Inv s) : Inv (exec ρ s ops).1 := by
@@ -701,7 +742,7 @@ theorem stmt_inv (ρ : Nat → Reply) (cfg : Cfg) {s : St} (st : Stmt) (h : Inv 
   | close name opt => exact closeio_inv ρ name opt h
   | fflush0 => exact flushio_inv ρ .console (some "") h
   | fflush name => exact fflushFold_inv ρ name _ s 1 h
-  | getline ik name => exact readio_inv ρ ik name h
+  | getline ik name => exact readio_inv ρ cfg.readFuel ik name h
   | nextofile => exact nextioWrite_inv ρ .console "" h
 
 theorem runStmts_inv (ρ : Nat → Reply) (cfg : Cfg) (prog : List Stmt) {s : St} (h : Inv s) :
@@ -801,21 +842,40 @@ theorem closeio_delivered (ρ : Nat → Reply) (s : St) (name : String) (opt : O
     · simp [Ev.slice]
     · split <;> simp [Ev.slice]
 
-theorem readRec_delivered (ρ : Nat → Reply) (s : St) (x : Strm) (k : Key) :
-    delivered k (readRec ρ s x).1.log = delivered k s.log := by
+theorem readLoop_delivered (ρ : Nat → Reply) (con : Bool) (sid : Nat) (key : Key) (fuel : Nat) (eof : Bool) (s : St)
+    (k : Key) : delivered k (readLoop ρ con sid key fuel eof s).1.log = delivered k s.log := by
+  induction fuel generalizing eof s with
+  | zero => rfl
+  | succ fuel ih =>
+    cases eof with
+    | true =>
+      unfold readLoop
+      split
+      · rfl
+      · split
+        · simp [Ev.slice]
+        · simp [Ev.slice]
+        · rw [ih]; simp [Ev.slice]
+    | false =>
+      unfold readLoop
+      split
+      · simp [Ev.slice]
+      · rw [ih]; simp [Ev.slice]
+      · simp [Ev.slice]
+
+theorem readRec_delivered (ρ : Nat → Reply) (fuel : Nat) (con : Bool) (s : St) (x : Strm) (k : Key) :
+    delivered k (readRec ρ fuel con s x).1.log = delivered k s.log := by
   unfold readRec
   split
   · rfl
-  · split
-    · rfl
-    · split <;> simp [Ev.slice]
+  · exact readLoop_delivered ρ con x.sid x.key fuel x.inEof s k
 
-theorem readio_delivered (ρ : Nat → Reply) (s : St) (ik : InKind) (name : String) (k : Key) :
-    delivered k (readio ρ s ik name).1.log = delivered k s.log := by
+theorem readio_delivered (ρ : Nat → Reply) (fuel : Nat) (s : St) (ik : InKind) (name : String) (k : Key) :
+    delivered k (readio ρ fuel s ik name).1.log = delivered k s.log := by
   unfold readio
   simp only
   split
-  · exact readRec_delivered ρ s _ k
+  · exact readRec_delivered ρ fuel _ s _ k
   · split
     · simp [Ev.slice]
     · rw [readRec_delivered]; simp [Ev.slice]
@@ -912,24 +972,45 @@ theorem closeio_noFlags (ρ : Nat → Reply) {s : St} (hn : NoFlags s) (name : S
       · intro y hy
         exact hn y (List.mem_of_mem_eraseP hy)
 
-theorem readRec_noFlags (ρ : Nat → Reply) {s : St} (hn : NoFlags s) (x : Strm) : NoFlags (readRec ρ s x).1 := by
-  unfold readRec
-  split
-  · exact hn
-  · split
-    · exact hn
-    · split
+theorem readLoop_noFlags (ρ : Nat → Reply) (con : Bool) (sid : Nat) (key : Key) (fuel : Nat) (eof : Bool) {s : St}
+    (hn : NoFlags s) : NoFlags (readLoop ρ con sid key fuel eof s).1 := by
+  induction fuel generalizing eof s with
+  | zero => exact hn
+  | succ fuel ih =>
+    cases eof with
+    | true =>
+      unfold readLoop
+      split
+      · exact hn
+      · split
+        · exact hn.same rfl
+        · refine hn.modify _ _ ?_ rfl
+          intro x h; exact h
+        · apply ih
+          refine hn.modify _ _ ?_ rfl
+          intro x h; exact h
+    | false =>
+      unfold readLoop
+      split
       · exact hn.same rfl
-      · refine hn.modify _ _ ?_ rfl
+      · apply ih
+        refine hn.modify _ _ ?_ rfl
         intro x h; exact h
       · exact hn.same rfl
 
-theorem readio_noFlags (ρ : Nat → Reply) {s : St} (hn : NoFlags s) (ik : InKind) (name : String) :
-    NoFlags (readio ρ s ik name).1 := by
+theorem readRec_noFlags (ρ : Nat → Reply) (fuel : Nat) (con : Bool) {s : St} (hn : NoFlags s) (x : Strm) :
+    NoFlags (readRec ρ fuel con s x).1 := by
+  unfold readRec
+  split
+  · exact hn
+  · exact readLoop_noFlags ρ con x.sid x.key fuel x.inEof hn
+
+theorem readio_noFlags (ρ : Nat → Reply) (fuel : Nat) {s : St} (hn : NoFlags s) (ik : InKind) (name : String) :
+    NoFlags (readio ρ fuel s ik name).1 := by
   unfold readio
   simp only
   split
-  · exact readRec_noFlags ρ hn _
+  · exact readRec_noFlags ρ fuel _ hn _
   · split
     · exact hn.same rfl
     · apply readRec_noFlags
@@ -947,7 +1028,7 @@ theorem step_noFlags {ρ : Nat → Reply} (hρ : AllAccept ρ) {s : St} (hn : No
   | flush ok name => exact flushio_noFlags ρ hn ok name
   | next ok name => exact nextioWrite_noFlags hρ hn ok name
   | close name opt => exact closeio_noFlags ρ hn name opt
-  | read ik name => exact readio_noFlags ρ hn ik name
+  | read ik name fuel => exact readio_noFlags ρ fuel hn ik name
   | flushall => exact flushall_noFlags ρ hn
 
 theorem noFlags_init : NoFlags St.init := by intro x hx; simp [St.init] at hx
@@ -1084,41 +1165,73 @@ theorem closeio_fail (ρ : Nat → Reply) (s : St) (name : String) (opt : Option
       · refine ⟨by simp, fun h => ?_⟩
         exact absurd (FailedIn.one (a := s.calls) (by simpa using h)) hne
 
-theorem readRec_fail (ρ : Nat → Reply) (s : St) (x : Strm) :
-    s.calls ≤ (readRec ρ s x).1.calls ∧
-    (FailedIn ρ s.calls (readRec ρ s x).1.calls → (readRec ρ s x).2 = -1) := by
+/-- prefix one non-failing call (number `a`) to a "fail ⇒ -1" fact -/
+theorem fail_step {ρ : Nat → Reply} {a : Nat} {r : St × Int} {s1 : St} (ha : s1.calls = a + 1) (hne : ρ a ≠ .fail)
+    (h : s1.calls ≤ r.1.calls ∧ (FailedIn ρ s1.calls r.1.calls → r.2 = -1)) :
+    a ≤ r.1.calls ∧ (FailedIn ρ a r.1.calls → r.2 = -1) := by
+  refine ⟨by omega, fun hf => h.2 ?_⟩
+  rw [ha]; exact FailedIn.first hf hne
+
+theorem readLoop_fail (ρ : Nat → Reply) (con : Bool) (sid : Nat) (key : Key) (fuel : Nat) (eof : Bool) (s : St) :
+    s.calls ≤ (readLoop ρ con sid key fuel eof s).1.calls ∧
+    (FailedIn ρ s.calls (readLoop ρ con sid key fuel eof s).1.calls → (readLoop ρ con sid key fuel eof s).2 = -1) := by
+  induction fuel generalizing eof s with
+  | zero => exact ⟨Nat.le_refl _, fun h => absurd h FailedIn.empty⟩
+  | succ fuel ih =>
+    cases eof with
+    | true =>
+      unfold readLoop
+      split
+      · exact ⟨Nat.le_refl _, fun h => absurd h FailedIn.empty⟩
+      · split
+        · exact ⟨by simp, fun _ => rfl⟩
+        · next hρ =>
+          refine ⟨by simp, fun h => ?_⟩
+          have := FailedIn.one (a := s.calls) (by simpa using h)
+          rw [this] at hρ; cases hρ
+        · next j hρ =>
+          refine fail_step ?_ ?_ (ih _ _)
+          · rfl
+          · rw [hρ]; simp
+    | false =>
+      unfold readLoop
+      split
+      · exact ⟨by simp, fun _ => rfl⟩
+      · next hρ =>
+        refine fail_step ?_ ?_ (ih _ _)
+        · rfl
+        · rw [hρ]; simp
+      · next hρ =>
+        refine ⟨by simp, fun h => ?_⟩
+        have := FailedIn.one (a := s.calls) (by simpa using h)
+        rw [this] at hρ; cases hρ
+
+theorem readRec_fail (ρ : Nat → Reply) (fuel : Nat) (con : Bool) (s : St) (x : Strm) :
+    s.calls ≤ (readRec ρ fuel con s x).1.calls ∧
+    (FailedIn ρ s.calls (readRec ρ fuel con s x).1.calls → (readRec ρ fuel con s x).2 = -1) := by
   unfold readRec
   split
   · exact ⟨Nat.le_refl _, fun h => absurd h FailedIn.empty⟩
-  · split
-    · exact ⟨Nat.le_refl _, fun h => absurd h FailedIn.empty⟩
-    · split
-      · exact ⟨by simp, fun _ => rfl⟩
-      · next hρ =>
-        refine ⟨by simp, fun h => ?_⟩
-        have := FailedIn.one (a := s.calls) (by simpa using h)
-        rw [this] at hρ; cases hρ
-      · next hρ =>
-        refine ⟨by simp, fun h => ?_⟩
-        have := FailedIn.one (a := s.calls) (by simpa using h)
-        rw [this] at hρ; cases hρ
+  · exact readLoop_fail ρ con x.sid x.key fuel x.inEof s
 
-theorem readRec_fail' (ρ : Nat → Reply) (s1 : St) (x : Strm) (a : Nat) (ha : s1.calls = a + 1) (hne : ρ a ≠ .fail) :
-    a ≤ (readRec ρ s1 x).1.calls ∧ (FailedIn ρ a (readRec ρ s1 x).1.calls → (readRec ρ s1 x).2 = -1) := by
-  have := readRec_fail ρ s1 x
+theorem readRec_fail' (ρ : Nat → Reply) (fuel : Nat) (con : Bool) (s1 : St) (x : Strm) (a : Nat) (ha : s1.calls = a + 1)
+    (hne : ρ a ≠ .fail) :
+    a ≤ (readRec ρ fuel con s1 x).1.calls ∧
+    (FailedIn ρ a (readRec ρ fuel con s1 x).1.calls → (readRec ρ fuel con s1 x).2 = -1) := by
+  have := readRec_fail ρ fuel con s1 x
   refine ⟨by omega, fun h => this.2 ?_⟩
   rw [ha]; exact FailedIn.first h hne
 
-theorem readio_fail (ρ : Nat → Reply) (s : St) (ik : InKind) (name : String) :
-    s.calls ≤ (readio ρ s ik name).1.calls ∧
-    (FailedIn ρ s.calls (readio ρ s ik name).1.calls → (readio ρ s ik name).2 = -1) := by
+theorem readio_fail (ρ : Nat → Reply) (fuel : Nat) (s : St) (ik : InKind) (name : String) :
+    s.calls ≤ (readio ρ fuel s ik name).1.calls ∧
+    (FailedIn ρ s.calls (readio ρ fuel s ik name).1.calls → (readio ρ fuel s ik name).2 = -1) := by
   unfold readio
   simp only
   split
-  · exact readRec_fail ρ s _
+  · exact readRec_fail ρ fuel _ s _
   · split
     · exact ⟨by simp, fun _ => rfl⟩
-    · next hne => exact readRec_fail' ρ _ _ s.calls rfl hne
+    · next hne => exact readRec_fail' ρ fuel _ _ _ s.calls rfl hne
 
 end Hawk.Rio
 
@@ -1244,7 +1357,7 @@ theorem stmt_fail (ρ : Nat → Reply) (cfg : Cfg) (s : St) (st : Stmt) :
     have := fflushFold_fail ρ name [.file, .apfile, .pipe, .rwpipe] s 1
     exact ⟨this.1, fun h => .inr (by simp [stmt, this.2 (.inr h)])⟩
   | getline ik name =>
-    have := readio_fail ρ s ik name
+    have := readio_fail ρ cfg.readFuel s ik name
     exact ⟨this.1, fun h => .inr (by simp [stmt, this.2 h])⟩
   | nextofile =>
     have := nextioWrite_fail ρ s .console ""
@@ -1467,7 +1580,7 @@ theorem stmt_allAccept {ρ : Nat → Reply} (hρ : AllAccept ρ) (cfg : Cfg) (s 
     have := fflushFold_frame ρ name [.file, .apfile, .pipe, .rwpipe] s 1
     exact ⟨hn.same this.1, fun k => by simp [stmt, stmtPayload, this.2 k]⟩
   | getline ik name =>
-    exact ⟨readio_noFlags ρ hn ik name, fun k => by simp [stmt, stmtPayload, readio_delivered]⟩
+    exact ⟨readio_noFlags ρ cfg.readFuel hn ik name, fun k => by simp [stmt, stmtPayload, readio_delivered]⟩
   | nextofile =>
     exact ⟨nextioWrite_noFlags hρ hn .console "", fun k => by simp [stmt, stmtPayload, nextioWrite_delivered]⟩
 
@@ -1657,5 +1770,98 @@ theorem stmt_printf_success (ρ : Nat → Reply) (cfg : Cfg) (s : St) (ok : OutK
   · exfalso
     simp only [hm, show ((-1:Int) ≤ -1) by decide, true_and, true_or, if_true] at hres
     cases ht : cfg.tolerant <;> simp [ht] at hres
+
+end Hawk.Rio
+
+namespace Hawk.Rio
+
+/-! ## the fuel of the console read loop is only a bound: once a read returns, more fuel changes nothing;
+running out of fuel means that many handler calls were made without the loop ending -/
+
+theorem readLoop_fuel_mono (ρ : Nat → Reply) (con : Bool) (sid : Nat) (key : Key) (fuel : Nat) (eof : Bool) (s : St)
+    (h : (readLoop ρ con sid key fuel eof s).2 ≠ -2) :
+    readLoop ρ con sid key (fuel + 1) eof s = readLoop ρ con sid key fuel eof s := by
+  induction fuel generalizing eof s with
+  | zero => simp [readLoop] at h
+  | succ fuel ih =>
+    cases eof with
+    | true =>
+      unfold readLoop
+      unfold readLoop at h
+      split
+      · rfl
+      · split
+        · rfl
+        · rfl
+        · next j hρ =>
+          simp only [‹¬ (!con) = true›, hρ] at h
+          exact ih _ _ h
+    | false =>
+      unfold readLoop
+      unfold readLoop at h
+      split
+      · rfl
+      · next hρ =>
+        simp only [hρ] at h
+        exact ih _ _ h
+      · rfl
+
+theorem readLoop_hang_calls (ρ : Nat → Reply) (con : Bool) (sid : Nat) (key : Key) (fuel : Nat) (eof : Bool) (s : St)
+    (h : (readLoop ρ con sid key fuel eof s).2 = -2) :
+    (readLoop ρ con sid key fuel eof s).1.calls = s.calls + fuel ∧ (2 ≤ fuel → con = true) := by
+  induction fuel generalizing eof s with
+  | zero => exact ⟨rfl, fun h => absurd h (by decide)⟩
+  | succ fuel ih =>
+    cases eof with
+    | true =>
+      unfold readLoop at h ⊢
+      split at h
+      · simp at h
+      · next hc =>
+        have hcon : con = true := by simpa using hc
+        split at h
+        · simp at h
+        · simp at h
+        · next j hρ =>
+          simp only [hc, if_false, Bool.false_eq_true]
+          have := ih _ _ h
+          exact ⟨by rw [this.1]; simp; omega, fun _ => hcon⟩
+    | false =>
+      unfold readLoop at h ⊢
+      split at h
+      · simp at h
+      · next hρ =>
+        simp only
+        have := ih _ _ h
+        refine ⟨by rw [this.1]; simp; omega, fun h2 => ?_⟩
+        -- the recursive call starts at EOF: with fuel ≥ 1 left it returns 0 at once unless the input is the console
+        cases fuel with
+        | zero => omega
+        | succ f =>
+          unfold readLoop at h
+          split at h
+          · simp at h
+          · next hc => simpa using hc
+      · simp at h
+
+theorem readio_fuel_mono (ρ : Nat → Reply) (fuel : Nat) (s : St) (ik : InKind) (name : String)
+    (h : (readio ρ fuel s ik name).2 ≠ -2) : readio ρ (fuel + 1) s ik name = readio ρ fuel s ik name := by
+  unfold readio at h ⊢
+  simp only at h ⊢
+  split
+  · next x hx =>
+    simp only [hx] at h
+    unfold readRec at h ⊢
+    split
+    · rfl
+    · next hne => simp only [hne] at h; exact readLoop_fuel_mono _ _ _ _ _ _ _ h
+  · next hnone =>
+    simp only [hnone] at h
+    split
+    · rfl
+    · next hne =>
+      unfold readRec at h ⊢
+      simp only [Bool.false_eq_true, if_false] at h ⊢
+      exact readLoop_fuel_mono _ _ _ _ _ _ _ h
 
 end Hawk.Rio
